@@ -119,10 +119,11 @@ def sym_parameters(I, names, prefix="p", vary=None, concrete_expr=True):
         vr = z3.Bool(f"{prefix}_{n}_vary") if vary is None else None
         ex = z3.Int(f"{prefix}_{n}_expr")
         misc = z3.Int(f"{prefix}_{n}_misc")
+        bs = z3.Int(f"{prefix}_{n}_brute_step")
         par = I.new_parameter(n, value=SReal(val), vary=SBool(vr) if vr is not None else vary[n],
                               min=SReal(lo), max=SReal(hi), expr=SAtom(ex),
-                              brute_step=SAtom(misc), stderr=SAtom(misc), correl=SAtom(misc),
+                              brute_step=SAtom(bs), stderr=SAtom(misc), correl=SAtom(misc),
                               init_value=SAtom(misc), user_data=SAtom(misc))
         ps.map.d[n] = [True, par]
-        terms[n] = dict(value=val, min=lo, max=hi, vary=vr, expr=ex, misc=misc)
+        terms[n] = dict(value=val, min=lo, max=hi, vary=vr, expr=ex, misc=misc, brute_step=bs)
     return ps, terms
